@@ -457,3 +457,230 @@ Proof.
   unfold I_checked_sub_unsigned, I_wrapping_sub_unsigned, tuple_to_option.
   destruct (I_overflowing_sub_unsigned w a b) as [r f]. cbn [fst snd]. split; reflexivity.
 Qed.
+
+(* ================= 6. saturating ================= *)
+
+Lemma flag_false_exact M X : 0 < M -> M = 2 * (M / 2) -> false = negb (inS M X) ->
+  - (M / 2) <= X < M / 2 /\ wrapS M X = X.
+Proof.
+  intros HM He Hf. symmetry in Hf. apply negb_false_iff, inS_true in Hf.
+  split; [exact Hf | apply wrapS_id; assumption].
+Qed.
+
+Lemma flag_true_out M X : true = negb (inS M X) -> X < - (M / 2) \/ M / 2 <= X.
+Proof. intros Hf. symmetry in Hf. apply negb_true_iff, inS_false in Hf. exact Hf. Qed.
+
+Theorem U_saturating_add_ok w n a b : 0 < w -> wf w n a -> wf w n b ->
+  wf w n (U_saturating_add w a b) /\
+  uval w (U_saturating_add w a b) = Z.min (Mod w n - 1) (uval w a + uval w b).
+Proof.
+  intros Hw Ha Hb. pose proof (U_overflowing_add_ok w n a b Hw Ha Hb) as H.
+  unfold U_saturating_add, saturate_up. destruct (U_overflowing_add w a b) as [r f].
+  cbn [fst snd]. destruct H as (Hr & Hv & Hf).
+  pose proof (uval_bounds w _ _ ltac:(lia) Ha). pose proof (uval_bounds w _ _ ltac:(lia) Hb).
+  destruct f.
+  - rewrite (wf_length _ _ _ Hr). split; [apply UMAX_wf; lia|]. rewrite UMAX_uval by lia.
+    symmetry in Hf. apply Z.leb_le in Hf. lia.
+  - split; [exact Hr|]. symmetry in Hf. apply Z.leb_gt in Hf. rewrite Hv, Z.mod_small by lia. lia.
+Qed.
+
+Theorem U_saturating_sub_ok w n a b : 0 < w -> wf w n a -> wf w n b ->
+  wf w n (U_saturating_sub w a b) /\
+  uval w (U_saturating_sub w a b) = Z.max 0 (uval w a - uval w b).
+Proof.
+  intros Hw Ha Hb. pose proof (U_overflowing_sub_ok w n a b Hw Ha Hb) as H.
+  unfold U_saturating_sub, saturate_down. destruct (U_overflowing_sub w a b) as [r f].
+  cbn [fst snd]. destruct H as (Hr & Hv & Hf).
+  pose proof (uval_bounds w _ _ ltac:(lia) Ha). pose proof (uval_bounds w _ _ ltac:(lia) Hb).
+  destruct f.
+  - rewrite (wf_length _ _ _ Hr). split; [apply ZERO_wf; lia|]. rewrite ZERO_uval.
+    symmetry in Hf. apply Z.ltb_lt in Hf. lia.
+  - split; [exact Hr|]. symmetry in Hf. apply Z.ltb_ge in Hf. rewrite Hv, Z.mod_small by lia. lia.
+Qed.
+
+Theorem U_saturating_add_signed_ok w n a b : 0 < w -> (0 < n)%nat -> wf w n a -> wf w n b ->
+  wf w n (U_saturating_add_signed w a b) /\
+  uval w (U_saturating_add_signed w a b) = Z.max 0 (Z.min (Mod w n - 1) (uval w a + sval w b)).
+Proof.
+  intros Hw Hn Ha Hb. pose proof (U_overflowing_add_signed_ok w n a b Hw Hn Ha Hb) as H.
+  destruct n as [|k]; [lia|].
+  unfold U_saturating_add_signed, saturate_up, saturate_down.
+  rewrite (is_negative_spec w k b Hw Hb).
+  destruct (U_overflowing_add_signed w a b) as [r f].
+  cbn [fst snd]. destruct H as (Hr & Hv & Hf).
+  pose proof (uval_bounds w _ _ ltac:(lia) Ha). pose proof (sval_range w (S k) b Hw ltac:(lia) Hb).
+  pose proof (Mod_even' w k Hw). set (M := Mod w (S k)) in *.
+  assert (HX : f = false -> 0 <= uval w a + sval w b < M).
+  { intros ->. symmetry in Hf. apply negb_false_iff, inU_true in Hf. exact Hf. }
+  assert (HY : f = true -> uval w a + sval w b < 0 \/ M <= uval w a + sval w b).
+  { intros ->. symmetry in Hf. apply negb_true_iff in Hf. unfold inU in Hf.
+    apply andb_false_iff in Hf. rewrite Z.leb_gt, Z.ltb_ge in Hf. exact Hf. }
+  destruct (Z.ltb_spec (sval w b) 0); destruct f.
+  - rewrite (wf_length _ _ _ Hr). split; [apply ZERO_wf; lia|]. rewrite ZERO_uval.
+    specialize (HY eq_refl). lia.
+  - split; [exact Hr|]. specialize (HX eq_refl). rewrite Hv, Z.mod_small by lia. lia.
+  - rewrite (wf_length _ _ _ Hr). split; [apply UMAX_wf; lia|]. rewrite UMAX_uval by lia.
+    specialize (HY eq_refl). fold M. lia.
+  - split; [exact Hr|]. specialize (HX eq_refl). rewrite Hv, Z.mod_small by lia. lia.
+Qed.
+
+Theorem I_saturating_add_ok w n a b : 0 < w -> (0 < n)%nat -> wf w n a -> wf w n b ->
+  wf w n (I_saturating_add w a b) /\
+  sval w (I_saturating_add w a b) = Z.max (- (Mod w n / 2)) (Z.min (Mod w n / 2 - 1) (sval w a + sval w b)).
+Proof.
+  intros Hw Hn Ha Hb. pose proof (I_overflowing_add_ok w n a b Hw Hn Ha Hb) as H.
+  destruct n as [|k]; [lia|].
+  unfold I_saturating_add, I_checked_add, tuple_to_option, sat_by_sign.
+  destruct (I_overflowing_add w a b) as [r f]. cbn [fst snd]. destruct H as (Hr & Hv & Hf).
+  pose proof (sval_range w (S k) a Hw ltac:(lia) Ha). pose proof (sval_range w (S k) b Hw ltac:(lia) Hb).
+  pose proof (Mod_even' w k Hw) as HE. pose proof (Mod_pos w (S k) ltac:(lia)) as HM.
+  destruct f.
+  - apply flag_true_out in Hf. rewrite (is_negative_spec w k a Hw Ha), (wf_length _ _ _ Ha).
+    destruct (Z.ltb_spec (sval w a) 0).
+    + split; [apply IMIN_wf; auto|]. rewrite IMIN_sval by auto. lia.
+    + split; [apply IMAX_wf; auto|]. rewrite IMAX_sval by auto. lia.
+  - apply flag_false_exact in Hf; try assumption. destruct Hf as [Hin Hw'].
+    split; [exact Hr|]. rewrite Hv, Hw'. lia.
+Qed.
+
+Theorem I_saturating_sub_ok w n a b : 0 < w -> (0 < n)%nat -> wf w n a -> wf w n b ->
+  wf w n (I_saturating_sub w a b) /\
+  sval w (I_saturating_sub w a b) = Z.max (- (Mod w n / 2)) (Z.min (Mod w n / 2 - 1) (sval w a - sval w b)).
+Proof.
+  intros Hw Hn Ha Hb. pose proof (I_overflowing_sub_ok w n a b Hw Hn Ha Hb) as H.
+  destruct n as [|k]; [lia|].
+  unfold I_saturating_sub, I_checked_sub, tuple_to_option, sat_by_sign.
+  destruct (I_overflowing_sub w a b) as [r f]. cbn [fst snd]. destruct H as (Hr & Hv & Hf).
+  pose proof (sval_range w (S k) a Hw ltac:(lia) Ha). pose proof (sval_range w (S k) b Hw ltac:(lia) Hb).
+  pose proof (Mod_even' w k Hw) as HE. pose proof (Mod_pos w (S k) ltac:(lia)) as HM.
+  destruct f.
+  - apply flag_true_out in Hf. rewrite (is_negative_spec w k a Hw Ha), (wf_length _ _ _ Ha).
+    destruct (Z.ltb_spec (sval w a) 0).
+    + split; [apply IMIN_wf; auto|]. rewrite IMIN_sval by auto. lia.
+    + split; [apply IMAX_wf; auto|]. rewrite IMAX_sval by auto. lia.
+  - apply flag_false_exact in Hf; try assumption. destruct Hf as [Hin Hw'].
+    split; [exact Hr|]. rewrite Hv, Hw'. lia.
+Qed.
+
+Theorem I_saturating_add_unsigned_ok w n a b : 0 < w -> (0 < n)%nat -> wf w n a -> wf w n b ->
+  wf w n (I_saturating_add_unsigned w a b) /\
+  sval w (I_saturating_add_unsigned w a b) = Z.max (- (Mod w n / 2)) (Z.min (Mod w n / 2 - 1) (sval w a + uval w b)).
+Proof.
+  intros Hw Hn Ha Hb. pose proof (I_overflowing_add_unsigned_ok w n a b Hw Hn Ha Hb) as H.
+  destruct n as [|k]; [lia|].
+  unfold I_saturating_add_unsigned, I_checked_add_unsigned, tuple_to_option.
+  destruct (I_overflowing_add_unsigned w a b) as [r f]. cbn [fst snd]. destruct H as (Hr & Hv & Hf).
+  pose proof (sval_range w (S k) a Hw ltac:(lia) Ha). pose proof (uval_bounds w _ _ ltac:(lia) Hb).
+  pose proof (Mod_even' w k Hw) as HE. pose proof (Mod_pos w (S k) ltac:(lia)) as HM.
+  destruct f.
+  - apply flag_true_out in Hf. rewrite (wf_length _ _ _ Ha).
+    split; [apply IMAX_wf; auto|]. rewrite IMAX_sval by auto. lia.
+  - apply flag_false_exact in Hf; try assumption. destruct Hf as [Hin Hw'].
+    split; [exact Hr|]. rewrite Hv, Hw'. lia.
+Qed.
+
+Theorem I_saturating_sub_unsigned_ok w n a b : 0 < w -> (0 < n)%nat -> wf w n a -> wf w n b ->
+  wf w n (I_saturating_sub_unsigned w a b) /\
+  sval w (I_saturating_sub_unsigned w a b) = Z.max (- (Mod w n / 2)) (Z.min (Mod w n / 2 - 1) (sval w a - uval w b)).
+Proof.
+  intros Hw Hn Ha Hb. pose proof (I_overflowing_sub_unsigned_ok w n a b Hw Hn Ha Hb) as H.
+  destruct n as [|k]; [lia|].
+  unfold I_saturating_sub_unsigned, I_checked_sub_unsigned, tuple_to_option.
+  destruct (I_overflowing_sub_unsigned w a b) as [r f]. cbn [fst snd]. destruct H as (Hr & Hv & Hf).
+  pose proof (sval_range w (S k) a Hw ltac:(lia) Ha). pose proof (uval_bounds w _ _ ltac:(lia) Hb).
+  pose proof (Mod_even' w k Hw) as HE. pose proof (Mod_pos w (S k) ltac:(lia)) as HM.
+  destruct f.
+  - apply flag_true_out in Hf. rewrite (wf_length _ _ _ Ha).
+    split; [apply IMIN_wf; auto|]. rewrite IMIN_sval by auto. lia.
+  - apply flag_false_exact in Hf; try assumption. destruct Hf as [Hin Hw'].
+    split; [exact Hr|]. rewrite Hv, Hw'. lia.
+Qed.
+
+Theorem I_saturating_neg_ok w n a : 0 < w -> (0 < n)%nat -> wf w n a ->
+  wf w n (I_saturating_neg w a) /\
+  sval w (I_saturating_neg w a) = Z.max (- (Mod w n / 2)) (Z.min (Mod w n / 2 - 1) (- sval w a)).
+Proof.
+  intros Hw Hn Ha. pose proof (I_overflowing_neg_ok w n a Hw Hn Ha) as H.
+  destruct n as [|k]; [lia|].
+  unfold I_saturating_neg, I_checked_neg, tuple_to_option.
+  destruct (I_overflowing_neg w a) as [r f]. cbn [fst snd]. destruct H as (Hr & Hv & Hf).
+  pose proof (sval_range w (S k) a Hw ltac:(lia) Ha).
+  pose proof (Mod_even' w k Hw) as HE. pose proof (Mod_pos w (S k) ltac:(lia)) as HM.
+  destruct f.
+  - apply flag_true_out in Hf. rewrite (wf_length _ _ _ Ha).
+    split; [apply IMAX_wf; auto|]. rewrite IMAX_sval by auto. lia.
+  - apply flag_false_exact in Hf; try assumption. destruct Hf as [Hin Hw'].
+    split; [exact Hr|]. rewrite Hv, Hw'. lia.
+Qed.
+
+Theorem I_saturating_abs_ok w n a : 0 < w -> (0 < n)%nat -> wf w n a ->
+  wf w n (I_saturating_abs w a) /\
+  sval w (I_saturating_abs w a) = Z.max (- (Mod w n / 2)) (Z.min (Mod w n / 2 - 1) (Z.abs (sval w a))).
+Proof.
+  intros Hw Hn Ha. pose proof (I_overflowing_abs_ok w n a Hw Hn Ha) as H.
+  destruct n as [|k]; [lia|].
+  unfold I_saturating_abs, I_checked_abs, tuple_to_option.
+  destruct (I_overflowing_abs w a) as [r f]. cbn [fst snd]. destruct H as (Hr & Hv & Hf).
+  pose proof (sval_range w (S k) a Hw ltac:(lia) Ha).
+  pose proof (Mod_even' w k Hw) as HE. pose proof (Mod_pos w (S k) ltac:(lia)) as HM.
+  destruct f.
+  - apply flag_true_out in Hf. rewrite (wf_length _ _ _ Ha).
+    split; [apply IMAX_wf; auto|]. rewrite IMAX_sval by auto. lia.
+  - apply flag_false_exact in Hf; try assumption. destruct Hf as [Hin Hw'].
+    split; [exact Hr|]. rewrite Hv, Hw'. lia.
+Qed.
+
+(* ================= 7. abs_diff, unsigned_abs ================= *)
+
+Theorem U_abs_diff_ok w n a b : 0 < w -> wf w n a -> wf w n b ->
+  wf w n (U_abs_diff w a b) /\ uval w (U_abs_diff w a b) = Z.abs (uval w a - uval w b).
+Proof.
+  intros Hw Ha Hb. unfold U_abs_diff, U_wrapping_sub.
+  rewrite (ucmp_spec w ltac:(lia) n a b Ha Hb).
+  pose proof (uval_bounds w _ _ ltac:(lia) Ha). pose proof (uval_bounds w _ _ ltac:(lia) Hb).
+  pose proof (U_overflowing_sub_ok w n a b Hw Ha Hb) as H1.
+  pose proof (U_overflowing_sub_ok w n b a Hw Hb Ha) as H2.
+  destruct (U_overflowing_sub w a b) as [r1 f1]. destruct (U_overflowing_sub w b a) as [r2 f2].
+  destruct H1 as (Hr1 & Hv1 & _). destruct H2 as (Hr2 & Hv2 & _). cbn [fst].
+  destruct (Z.compare_spec (uval w a) (uval w b)); cbn [cmp_lt].
+  - split; [exact Hr1|]. rewrite Hv1, Z.mod_small by lia. lia.
+  - split; [exact Hr2|]. rewrite Hv2, Z.mod_small by lia. lia.
+  - split; [exact Hr1|]. rewrite Hv1, Z.mod_small by lia. lia.
+Qed.
+
+Theorem I_abs_diff_ok w n a b : 0 < w -> (0 < n)%nat -> wf w n a -> wf w n b ->
+  wf w n (I_abs_diff w a b) /\ uval w (I_abs_diff w a b) = Z.abs (sval w a - sval w b).
+Proof.
+  intros Hw Hn Ha Hb. destruct n as [|k]; [lia|].
+  unfold I_abs_diff, I_wrapping_sub, U_wrapping_sub.
+  rewrite (icmp_spec w k a b Hw Ha Hb).
+  pose proof (sval_range w (S k) a Hw ltac:(lia) Ha). pose proof (sval_range w (S k) b Hw ltac:(lia) Hb).
+  pose proof (Mod_even' w k Hw) as HE.
+  pose proof (U_overflowing_sub_ok w _ a b Hw Ha Hb) as H1.
+  pose proof (U_overflowing_sub_ok w _ b a Hw Hb Ha) as H2.
+  destruct (U_overflowing_sub w a b) as [r1 f1]. destruct (U_overflowing_sub w b a) as [r2 f2].
+  destruct H1 as (Hr1 & Hv1 & _). destruct H2 as (Hr2 & Hv2 & _). cbn [fst].
+  rewrite <- (sub_mod_signed w (S k) a b) in Hv1 by assumption.
+  rewrite <- (sub_mod_signed w (S k) b a) in Hv2 by assumption.
+  destruct (Z.compare_spec (sval w a) (sval w b)); cbn [cmp_lt].
+  - split; [exact Hr1|]. rewrite Hv1, Z.mod_small by lia. lia.
+  - split; [exact Hr2|]. rewrite Hv2, Z.mod_small by lia. lia.
+  - split; [exact Hr1|]. rewrite Hv1, Z.mod_small by lia. lia.
+Qed.
+
+Theorem I_unsigned_abs_ok w n a : 0 < w -> (0 < n)%nat -> wf w n a ->
+  wf w n (I_unsigned_abs w a) /\ uval w (I_unsigned_abs w a) = Z.abs (sval w a).
+Proof.
+  intros Hw Hn Ha. destruct n as [|k]; [lia|].
+  unfold I_unsigned_abs, I_wrapping_neg, I_overflowing_neg.
+  rewrite (is_negative_spec w k a Hw Ha).
+  pose proof (sval_range w (S k) a Hw ltac:(lia) Ha).
+  pose proof (Mod_even' w k Hw) as HE. pose proof (Mod_pos w (S k) ltac:(lia)) as HM.
+  destruct (Z.ltb_spec (sval w a) 0).
+  - pose proof (ineg_loop_spec w Hw k a Ha) as H1. destruct (ineg_loop w a) as [r f].
+    destruct H1 as (Hr & Hv & _). cbn [fst]. split; [exact Hr|].
+    rewrite (uval_of_sval w (S k) r Hw Hr), Hv, wrapS_mod, Z.mod_small by lia. lia.
+  - split; [exact Ha|].
+    pose proof (sval_as_uval w (S k) a Ha) as E. pose proof (uval_bounds w _ _ ltac:(lia) Ha).
+    destruct (Z.leb_spec (Mod w (S k) / 2) (uval w a)); cbn [b2z] in E; lia.
+Qed.
